@@ -1,7 +1,7 @@
 (** C01: execution equals the sequential reference semantics under any scheduling and execution mode.
     Statements only; proofs are in Gql/ProofsSched.v, Gql/ProofsSplit.v. *)
 From Coq Require Import List String Bool Arith Permutation ZArith.
-From Thunder Require Import Lib.Json Gql.Types Gql.Value Gql.Query Gql.Ref Gql.Exec Gql.ProofsSched Gql.ProofsSplit Gql.Witness Gql.ProofsWitness.
+From Thunder Require Import Lib.Json Gql.Types Gql.Value Gql.Query Gql.Ref Gql.Exec Gql.ProofsSched Gql.ProofsSplit Gql.ProofsRef Gql.ProofsMain Gql.Witness Gql.ProofsWitness.
 Import ListNotations.
 Open Scope string_scope.
 Open Scope list_scope.
@@ -45,20 +45,40 @@ Theorem split_work_unit_pairs : forall u, flat_map u_items (split_work_unit u) =
 Proof. exact ProofsSplit.split_work_unit_items. Qed.
 Print Assumptions split_work_unit_pairs.
 
-(* FULL STATEMENT, not yet proved (the executable model is tested against it on every run by
-   Gql/Check.v component 1 = component 2, and against the implementation):
+(** THE PROPERTY.  For every schema as the builder produced it (hence for every assignment of
+    execution modes to fields: plain, Expensive, batch, batch with fallback, NumParallelInvocations),
+    every parsed query, every data graph and every schedule: if the sequential reference evaluation
+    raises nothing (the query fits the schema, the data has a result for every selected field, no
+    resolver fails, the fuel suffices), then Execute can be started, and once no unit is pending it
+    returns exactly the JSON of [eval_ref] - same values, same key order.
+    Side conditions on the reference result itself: each of its nodes has its own response path (no
+    object carries a key twice; Flatten makes aliases unique, the condition excludes an alias "__key" on
+    a keyed object), and [render]'s fuel covers its nesting depth. *)
+Theorem execution_equals_reference : forall S fuel rf q root sched,
+  snd (eval_ref S fuel q root) = [] ->
+  NoDup (map fst (ent [] (fst (eval_ref S fuel q root)))) ->
+  jdepth (fst (eval_ref S fuel q root)) <= Datatypes.S rf ->
+  exists st0, init fixed S q root = inl st0 /\
+    (complete (run_sched fixed S fuel sched st0) = true ->
+     finish rf (run_sched fixed S fuel sched st0) = Some (ROk (fst (eval_ref S fuel q root)))).
+Proof. exact ProofsMain.execution_equals_reference. Qed.
+Print Assumptions execution_equals_reference.
 
-   execution_equals_reference : forall S q root fuel sched,
-     snd (eval_ref S fuel q root) = [] ->          (* valid query, complete data, no failing resolver, enough fuel *)
-     complete (run_sched fixed S fuel sched st0) = true ->   (* where init fixed S q root = inl st0 *)
-     run fixed S fuel sched q root = Some (ROk (fst (eval_ref S fuel q root)))   (* up to key order *)
+(** Termination: under the same hypothesis there is a bound such that every schedule at least that
+    long leaves no unit pending. *)
+Theorem execution_terminates : forall S fuel q root,
+  snd (eval_ref S fuel q root) = [] ->
+  exists st0 n, init fixed S q root = inl st0 /\
+    forall sched, n <= List.length sched -> complete (run_sched fixed S fuel sched st0) = true.
+Proof. exact ProofsMain.execution_terminates. Qed.
+Print Assumptions execution_terminates.
 
-   What is proved above: independence of the schedule (all schedules, unbounded) relative to the forest
-   of units, and the splitting lemmas.  What is missing: (a) the forest of the initial units, rendered,
-   equals eval_ref (batch resolution over n sources = n single-source resolutions; one-level unfolding
-   of eval_ref), which also gives the NoDup hypothesis; (b) termination: the forest is finite for every
-   valid query (hypothesis [Forall2 P ...] above is stated per case and checked by vm_compute in the
-   Example). *)
+(** The lemma behind both: a work unit, whatever its mode and however it was split, fills exactly the
+    nodes of the reference results of its (source, destination) pairs, together with the forest of units
+    it schedules ([U]); resolveBatch over n sources equals n single evaluations ([R]). *)
+Theorem units_compute_reference : forall S fuel fr, R S fuel fr /\ U S fuel fr.
+Proof. exact ProofsRef.units_compute_reference. Qed.
+Print Assumptions units_compute_reference.
 
 (** The code before the repair of resolveUnionBatch (model variant [original]) does not compute the
     reference result: two fragments on one union member, the second replaces the first (F4), and a
@@ -90,6 +110,18 @@ Definition ex_query : squery :=
              (SCons (SField "b" "b" "b" [] (Some (3, SCons (SField "id" "id" "id" [] None) SNil))) SNil))))
     (SCons (SField "u" "u" "u" [] (Some (4, SCons (SInline "A" [] 5 (SCons (SField "id" "id" "id" [] None) SNil))
              (SCons (SInline "A" [] 6 (SCons (SField "x" "x" "x" [] None) SNil)) SNil)))) SNil)) [].
+
+Example main_hypotheses_satisfiable :
+  exists ss, parse [] ex_query = Some ss /\
+    snd (eval_ref ex_schema 40 ss ex_root) = [] /\
+    NoDup (map fst (ent [] (fst (eval_ref ex_schema 40 ss ex_root)))) /\
+    jdepth (fst (eval_ref ex_schema 40 ss ex_root)) <= 40 /\
+    List.length (ent [] (fst (eval_ref ex_schema 40 ss ex_root))) = 20.
+Proof.
+  eexists. split; [vm_compute; reflexivity|]. split; [vm_compute; reflexivity|].
+  split; [|split; [vm_compute; repeat constructor | vm_compute; reflexivity]].
+  vm_compute. repeat (constructor; [simpl; intuition discriminate|]). constructor.
+Qed.
 
 Example hypotheses_satisfiable :
   exists st0 rs ss,
